@@ -9,7 +9,7 @@ if ! (GOFLAGS=-mod=mod GOPROXY=off go build ./... 2>/dev/null); then echo "DOES-
 if [ -n "${VF_MUT_SUITE:-}" ]; then
   GOFLAGS=-mod=mod GOPROXY=off go test -vet=off -count=1 . >/dev/null 2>&1 || { echo "EXISTING-TESTS-FAIL $P"; exit 4; }
 fi
-out=$(VF_RUNS=$RUNS VF_MIN_S=5 /verif/bin/vfcheck run $PROP quick 2>&1); rc=$?
+out=$(VF_RUNS=$RUNS VF_MIN_S=5 $(dirname $(readlink -f $0))/vfcheck run $PROP quick 2>&1); rc=$?
 if [ $rc -eq 1 ]; then echo "KILLED $PROP $(basename $P): $(echo "$out" | grep -m1 'class=' | cut -c1-200)";
 elif [ $rc -eq 0 ]; then echo "SURVIVED $PROP $(basename $P)"; else echo "TROUBLE($rc) $PROP $(basename $P): $(echo "$out" | tail -5)"; fi
 find /verif/replays -type f -newer "$P" -delete 2>/dev/null
